@@ -218,6 +218,12 @@ pub fn solve_milp_lp_problem_with(
                     None => positive,
                 }
             };
+            // an astronomically scaled model can break the back end numerically: a
+            // point with NaN or infinite entries is not a solution
+            if !s.objective().is_finite() || (0..variables.len()).any(|i| !value_of(i).is_finite())
+            {
+                return Err(SolverError::DidNotSolve);
+            }
             let assignment = variables
                 .iter()
                 .enumerate()
